@@ -19,6 +19,7 @@
  R4 no reset      : no function of elements.py / science_utils.py builds a spectrum anew (factories are for launch and design
                     only): accumulated ASE / NLI cannot be dropped inside an element.
  R5 NLI spreading : between the per-cut sums and add_nli only sign-preserving operations (numpy.interp clamps; no extrapolation).
+ R6 own arrays    : the constructor copies (fancy index) and permutes every per-channel array: in-place share updates cannot alias.
 """
 import ast
 
@@ -352,6 +353,14 @@ def r5_nli_interp(ctx):
     ctx.need('R5.nli-interp', 6)
 
 
+def r6_own_arrays(ctx):
+    """R6: a spectrum owns its per-channel arrays: the constructor stores param[argsort(frequency)] (a fancy index, hence a copy)
+    for every field, so the in-place share updates of add_ase / add_nli can never write into an array that another field or
+    the caller also holds (shared with C01-R2) - otherwise a passive fibre could change the ASE share"""
+    from .c01 import init_permutation
+    init_permutation(ctx, 'R6.own-arrays')
+
+
 def r4_no_reset(ctx):
     """R4: noise accumulated upstream is never dropped inside an element: the elements (and the physics they call) never build
     a spectrum anew - only request.propagate (launch) and the design code (reference comb) call the spectral-information
@@ -383,4 +392,4 @@ from ..presence import rule_for as _presence_rule
 
 RULES_PRESENCE = ('Rp.presence', _presence_rule('C02', 'a legal zero would be read as missing'))
 
-RULES = [('R3.raman-ase', r3b_raman_ase), ('R1.effects', r1_effects), ('R2.identities', r2_identities), ('R3.sign', r3_sign), RULES_MEMO, RULES_PRESENCE, ('R4.no-reset', r4_no_reset), ('R5.nli-interp', r5_nli_interp)]
+RULES = [('R3.raman-ase', r3b_raman_ase), ('R1.effects', r1_effects), ('R2.identities', r2_identities), ('R3.sign', r3_sign), RULES_MEMO, RULES_PRESENCE, ('R4.no-reset', r4_no_reset), ('R5.nli-interp', r5_nli_interp), ('R6.own-arrays', r6_own_arrays)]
